@@ -79,8 +79,12 @@ def segment(stream, cuts, cap=2048):
     return out
 
 
-class C10(Check):
+from c10_live import LiveMixin
+
+
+class C10(LiveMixin, Check):
     id = "C10"
+    _kit = (RSock, RX_ERRNO, cpu_budget, Spin)
     prop_module = "PoxModel.Properties.C10"
     lean_targets = ["drv_c10"]
     driver = "drv_c10"
@@ -89,12 +93,15 @@ class C10(Check):
                 "Pox.C10.ctl_disconnect_stops", "Pox.C10.ctl_no_disconnect_same", "Pox.C10.ctl_disconnect_persists",
                 "Pox.C10.sw_trace_is_feed", "Pox.C10.sw_answered_or_closed", "Pox.C10.sw_replies_only_for_skips",
                 "Pox.C10.ctl_trace_is_feed", "Pox.C10.ctl_accounted", "Pox.C10.ctl_task_contained", "Pox.C10.sw_deliver_window_only",
-                "Pox.C10.round_order_irrelevant", "Pox.C10.round_independent", "Pox.C10.ctl_round_contained", "Pox.C10.ctl_round_is_serveRound", "Pox.C10.ctl_round_completes"]
+                "Pox.C10.round_order_irrelevant", "Pox.C10.round_independent", "Pox.C10.ctl_round_contained", "Pox.C10.ctl_round_is_serveRound", "Pox.C10.ctl_round_completes",
+                "Pox.C10.history_isolated", "Pox.C10.offender_never_existed", "Pox.C10.closed_is_silent", "Pox.C10.live_event_is_own"]
     anchors = [("pox/openflow/of_01.py", "Connection.read"), ("pox/openflow/of_01.py", "OpenFlow_01_Task.run"),
                ("pox/datapaths/switch.py", "OFConnection.read"), ("pox/datapaths/switch.py", "OFConnection._error_handler"),
                ("pox/datapaths/switch.py", "OFConnection._extract_message_xid"), ("pox/lib/ioworker/__init__.py", "RecocoIOLoop.run"),
                ("pox/lib/ioworker/__init__.py", "IOWorker._do_recv"), ("pox/openflow/libopenflow_01.py", "_read"), ("pox/openflow/libopenflow_01.py", "_unpack"),
-               ("pox/openflow/libopenflow_01.py", "_skip"), ("pox/openflow/libopenflow_01.py", "_unpack_actions")]
+               ("pox/openflow/libopenflow_01.py", "_skip"), ("pox/openflow/libopenflow_01.py", "_unpack_actions"),
+               ("pox/openflow/of_01.py", "Connection.__init__"), ("pox/openflow/of_01.py", "Connection._incoming_stats_reply"),
+               ("pox/openflow/of_01.py", "DefaultOpenFlowHandlers.handle_STATS_REPLY")]
     coverage_cases = 10 ** 9      # every case runs under the line tracer (cheap here)
     design_ref = "DESIGN.md §5 C10"
     technique = ("Lean 4 proof over the two read-loop models with the decoders completely unconstrained (termination by a consumption bound, no escaping exception on the switch side, "
@@ -102,7 +109,10 @@ class C10(Check):
     level_text = ("Theorems: for EVERY decoder behaviour (any offset, exception, missing) and every byte string, both read loops terminate within len/8+1 iterations, the switch-side path never lets "
                   "an exception escape (so its I/O loop survives), feeding one connection leaves all others untouched, and every delivered message was decoded from exactly its declared-length window. "
                   "Each run replays the real decoders' observed behaviour through the model on a mutation stream (every length value, type/version bytes, truncations, flips, random) and checks the loops' "
-                  "outcome; independently the oracle checks no spin (CPU budget), surviving I/O loop, unchanged sibling traffic and that each delivered object does not depend on bytes outside its window.")
+                  "outcome; independently the oracle checks no spin (CPU budget), surviving I/O loop, unchanged sibling traffic and that each delivered object does not depend on bytes outside its window. "
+                  "Live histories (real handshake / statistics-assembly / port handlers on three connections under the real controller loop): theorems history_isolated / offender_never_existed say that in "
+                  "the model every connection's events and final state are those of its own inputs alone; the oracle demands the same of the code by running each history with and without the offender "
+                  "(events on nexus and connection, port view, registration, bytes written), and the statistics events of all connections are compared with LiveNet.runNet.")
     level_note = ("Trusted: Lean kernel, standard axioms, hand-written Model/Framing.lean, the harness. Both I/O loops are the real ones: the controller side drives the real "
                   "OpenFlow_01_Task.run generator (its listening socket is bound to 127.0.0.1:0 and never connected to), the switch side the real RecocoIOLoop.run generator; the harness "
                   "answers each Select they yield. What the ~50 decoders do with garbage is NOT modelled: it is observed, fed to the model as a table, and checked by the oracle "
@@ -114,8 +124,14 @@ class C10(Check):
                    "a message handler that RAISES is caught by both read loops (cases `hraise`); in the model handlers do not exist, so a raising handler and a returning one are the same step; a failure inside OFConnection._error_handler itself is not modelled",
                    "sw_contained (no branch of swLoop yields `dead`) and siblings_untouched (feedAt is List.set) hold by construction of the model; that the real loops behave like it is what every run tests by driving the real RecocoIOLoop.run / OpenFlow_01_Task.run generators with three connections",
                    "the no-over-read theorems constrain the offset a decoder reports; that a decoder does not PEEK past its window is the hypothesis WindowLocal (theorem sw_deliver_window_only), proved of the real decoders on well-formed messages by C01 and tested on every delivered window here (re-decoding it followed by other bytes)",
+                   "live histories: the model's inputs `up` (handshake complete) and `close` (malformed bytes take effect / peer gone / wrong barrier reply) are derived from the script of the history, byte-accurately (a message counts when its last byte — for a bad header its 8th byte — has arrived); the handshake itself is C13's model; "
+                   "the differential oracle runs the history twice in one process (first without the offender): state leaking BETWEEN the two runs would show as a failure of the first live case, not hide one",
                    "non-termination is detected by a budget of 4 s CPU time (or 32 s wall time when blocked) per read call", "recv returns at most the bytes asked for"]
-    rule = ("[rounds] a case may serve all three connections in ONE select round per step, in a given order, and let a sibling lose its peer in that round; "
+    rule = ("[live] histories over three controller connections with the REAL handlers (steps = symbolic messages per connection with a number of bytes held back in flight; "
+            "the offender completes or half-completes its handshake, leaves unfinished multipart replies of every type with xids the siblings also use, deferred port status and half a message, "
+            "then sends a bad version / a length < 8 / a message whose decoder raises / a wrong barrier reply or loses its peer); every sibling's events (nexus and connection level, aggregated "
+            "statistics included), port view, registration and what it was written must equal those of the same history WITHOUT the offender; the statistics events of all connections are model-compared (LiveNet.runNet); "
+            "[rounds] a case may serve all three connections in ONE select round per step, in a given order, and let a sibling lose its peer in that round; "
             "case = (side, valid prefix messages, one malformed region, valid suffix messages, two sibling connections with valid traffic, cut positions); malformed region = every length value 0..len+8 of "
             "each of the 22 message types (corpus), type/version bytes, embedded lengths, truncations, byte flips, random bytes; non-trivial = the malformed region differs from a valid message")
 
@@ -249,6 +265,22 @@ class C10(Check):
                 body = bytes((i * 7) & 0xff for i in range(L - 8))
                 b = bytes([1, t, L >> 8, L & 0xff, 0, 0, 0, 9]) + body
                 cases.append(self._mk(rng, side, b, cuts=(2048, 30000)))
+        # siblings that hold half a message (and several messages per read) while the offender gives up / is answered / raises
+        for side in ("ctl", "sw"):
+            hello = bytearray(self.of.ofp_hello(xid=3).pack())
+            bads = [bytes(hello[:2]) + b"\x00\x04" + bytes(hello[4:]), bytes([4]) + bytes(self.of.ofp_echo_request(xid=4).pack()[1:]),
+                    bytes([1, 0x63, 0, 8, 0, 0, 0, 5]), self.of.ofp_stats_reply(xid=6, type=1, body=b"\0\0\0").pack()]
+            for bad in bads:
+                for sc in ([[3], [12]], [[8, 9], [1, 2, 3]], [[4, 20, 21], [7]], [[10 ** 6], [5, 11, 17, 23, 29, 35]]):
+                    for order in (None, [0, 1, 2], [2, 0, 1]):
+                        c = self._mk(rng, side, bad, npre=1, npost=1, cuts=(5, 13))
+                        c["sib"] = [[self._valid(rng).hex() for _ in range(3)] for _ in range(2)]
+                        c["sibcuts"] = sc
+                        if order: c["round"] = order
+                        cases.append(c)
+        # live histories (c10_live.py): the REAL handlers on every connection; the offender leaves unfinished multipart replies of
+        # every type (colliding xids), half a message, a pending handshake, deferred port status behind, then dies in every way
+        cases.extend(self._live_corpus())
         return cases
 
     def _embedded(self, rng):
@@ -276,6 +308,8 @@ class C10(Check):
 
     def generate(self, rng, tier):
         n = 400 if tier == "quick" else 12000
+        for _ in range(n // 4):
+            yield self._live_random(rng)
         for _ in range(n):
             side = rng.choice(["ctl", "sw"])
             m = bytearray(self._valid(rng))
@@ -304,12 +338,15 @@ class C10(Check):
             if rng.random() < 0.3:                              # all three connections readable in the same select rounds
                 c["round"] = rng.sample([0, 1, 2], 3)
                 if rng.random() < 0.4: c["sibrx"] = {"k": rng.choice([1, 2]), "at": rng.randint(0, 1), "kind": rng.choice(["eof", "reset", "pipe"])}
+            if "sibrx" not in c and rng.random() < 0.4:       # siblings' streams cut anywhere: half messages held across the offender's reads
+                c["sibcuts"] = [sorted(rng.randint(1, 120) for _ in range(rng.choice([1, 2, 4]))) for _ in range(2)]
             yield c
 
     # ------------------------------------------------------------------ implementation
     def impl(self, case):
         if self.spins >= 3:
             return {"skipped": "spin budget exhausted earlier in this run"}
+        if case.get("live"): return self._impl_live(case)
         return self._impl_ctl(case) if case["side"] == "ctl" else self._impl_sw(case)
 
     def _recorders(self, table, delivered, objs):
@@ -330,6 +367,14 @@ class C10(Check):
             win, obj, u = last[0]
             delivered.append(win.hex()); objs.append((win, canon_obj(obj), u))
         return wrap, deliver
+
+    def _sib_chunks(self, case):
+        """what each sibling's peer writes per read: one message per read, or (`sibcuts`) its stream cut at arbitrary positions,
+        so that a sibling holds HALF a message while the offender misbehaves"""
+        msgs = [[bytes.fromhex(x) for x in s] for s in case["sib"]]
+        sc = case.get("sibcuts")
+        if not sc or case.get("sibrx"): return msgs
+        return [segment(b"".join(m), sc[k]) for k, m in enumerate(msgs)]
 
     def _plan(self, case):
         stream = b"".join(bytes.fromhex(x) for x in case["pre"]) + bytes.fromhex(case["bad"]) + b"".join(bytes.fromhex(x) for x in case["post"])
@@ -412,7 +457,7 @@ class C10(Check):
                     spin[0] = True; alive[0] = False
             return set(i for i, _ in live)
         counts = []
-        sib_msgs = [[bytes.fromhex(x) for x in s] for s in case["sib"]]
+        sib_msgs = self._sib_chunks(case)
         rx, snap = case.get("rx"), {}
         def inject():
             # the peer closes / resets the connection: recv returns b"" or raises
@@ -498,7 +543,7 @@ class C10(Check):
         except StopIteration:
             alive[0] = False
         counts = []
-        sib_msgs = [[bytes.fromhex(x) for x in s] for s in case["sib"]]
+        sib_msgs = self._sib_chunks(case)
         shut_at = [None]                                   # bytes written to connection 0 when it was first seen shut down
         def is_shut(i): return workers[i] not in loop._workers or workers[i].closed or workers[i]._shutdown_send
         def feed(i, data):
@@ -594,9 +639,12 @@ class C10(Check):
 
     def model_request2(self, case, obs):
         if "skipped" in obs or obs["status"] == "spin" or not obs["loop_alive"]: return None
+        if case.get("live"):
+            return {"side": "ctl", "n": case["live"]["n"], "live": self._live_abstract(case["live"])}
         return {"side": case["side"], "chunks": obs["chunks"][:len(obs["counts"])], "table": obs["table"], "disc": case.get("disc", [])}
 
     def impl_view(self, case, obs):
+        if case.get("live"): return self._live_view(case, obs)
         st, buf = obs["status"], obs["buf"]
         if obs.get("rx_status") == "closed" and obs.get("status_pre") == "alive":
             st, buf = "alive", obs["buf_pre"]          # the model is asked about the chunks read before the peer went away
@@ -607,6 +655,7 @@ class C10(Check):
 
     def model_obs(self, case, resp):
         if "error" in resp: return resp
+        if case.get("live"): return [{"nexus": per, "con": per} for per in resp["events"]]
         v = {"delivered": resp["delivered"], "counts": resp["counts"], "status": resp["status"]}
         if resp["status"] == "alive": v["buf"] = resp["buf"]
         if case["side"] == "sw": v["errors"] = resp["errors"]
@@ -615,6 +664,7 @@ class C10(Check):
     # ------------------------------------------------------------------ the property on the implementation
     def oracle(self, case, obs):
         if "skipped" in obs: return None
+        if case.get("live"): return self._live_oracle(case, obs)
         side = case["side"]
         if obs["status"] == "spin": return side + ": processing does not terminate (CPU budget exceeded)"
         if not obs["loop_alive"]: return side + ": the I/O loop serving all connections died"
@@ -665,7 +715,14 @@ class C10(Check):
         import re
         return re.sub(r"window [0-9a-f]+", "window", failure)[:110]
 
+    def shrink_candidates(self, case):
+        if case.get("live"):
+            import copy
+            for i in range(len(case["live"]["steps"])):
+                c = copy.deepcopy(case); del c["live"]["steps"][i]; yield c
+
     def nontrivial(self, case, obs):
+        if case.get("live"): return any(c and not c["served"] for c in obs.get("run", {}).get("cons", []))
         return any(e["r"] != "ok" for e in obs.get("table", [])) or obs.get("status") != "alive" or len(obs.get("delivered", [])) != len(case["pre"]) + 1 + len(case["post"])
 
 
